@@ -23,7 +23,7 @@ def worker_receive(session, data):
         session.parser.parse(data)
 
 
-def run(use_filter, requests, segments):
+def run(use_filter, requests, segments, as_element=False):
     """requests: list of filter_xml strings or None (one async ExecuteRpc each, message-ids m1, m2, …);
     segments: list of bytes fed in order.  -> list of raw reply texts (or None) per request, + error"""
     dh = manager.make_device_handler({'name': 'junos', 'use_filter': use_filter})
@@ -39,6 +39,9 @@ def run(use_filter, requests, segments):
             del lst._id2rpc[r._id]
             r._id = 'm%d' % i
             lst._id2rpc[r._id] = r
+        if as_element and flt is not None:
+            from lxml import etree
+            flt = etree.fromstring(flt)        # the filter handed over as an lxml element (documented alternative to a string)
         r._filter_xml = flt
         rpcs.append(r)
     err = None
